@@ -137,6 +137,14 @@ def gen(repo) -> str:
         isinstance(n, ast.Compare) and len(n.ops) == 1 and isinstance(n.ops[0], ast.NotEq)
         and "_template_filename" in ast.unparse(n.left) and ast.unparse(n.comparators[0]) == "filename"
         for n in ast.walk(cff))
+    # is the staleness of an existing module file decided before the module file is imported?
+    cmp_lines = [n.lineno for n in ast.walk(cff) if isinstance(n, ast.Compare) and len(n.ops) == 1
+                 and isinstance(n.ops[0], ast.Lt) and ast.unparse(n.comparators[0]) == "filemtime"]
+    load_lines = [n.lineno for n in ast.walk(cff) if isinstance(n, ast.Call) and isinstance(n.func, ast.Attribute)
+                  and n.func.attr == "load_module"]
+    if not cmp_lines or not load_lines:
+        raise RegenError("%s: _compile_from_file has no `mtime < filemtime` test or no load_module call" % rel_t)
+    stale_before_import = min(cmp_lines) < min(load_lines)
     lines = [HEADER % "mako/util.py (LRUCache), mako/lookup.py (TemplateLookup), mako/template.py (_compile_from_file)",
              "namespace MakoModel.Generated.Lookup",
              "",
@@ -158,6 +166,8 @@ def gen(repo) -> str:
              "def secondChanceChecked : Bool := %s" % ("true" if second_chance_checked else "false"),
              "/-- `_compile_from_file` regenerates a module file whose `_template_filename` differs from the source -/",
              "def moduleChecksSourceName : Bool := %s" % ("true" if checks_source_name else "false"),
+             "/-- in `_compile_from_file` the `mtime(module) < mtime(source)` test precedes the first `load_module` -/",
+             "def staleDecidedBeforeImport : Bool := %s" % ("true" if stale_before_import else "false"),
              "",
              "end MakoModel.Generated.Lookup",
              ""]
